@@ -45,14 +45,15 @@ type Stats struct {
 	Outcomes      map[string]int64 `json:"outcomes"`     // execution outcome class -> count
 	DistinctObs   int              `json:"distinct_obs"` // distinct observations (hash of Check's obs)
 	obs           map[uint64]struct{}
-	ObsHashes     []uint64 `json:"obs_hashes,omitempty"`
-	Capped        bool     `json:"capped"`
-	Found         []Found  `json:"found,omitempty"`
-	Sample        []int    `json:"sample_choices,omitempty"`
-	SampleTrace   []string `json:"sample_trace,omitempty"`
-	ReplayChecked int      `json:"replay_determinism_checked"`
-	MaxPreempt    int      `json:"max_preemptions_used"`
-	Members       int      `json:"members,omitempty"` // scenario families: members explored
+	ObsHashes     []uint64         `json:"obs_hashes,omitempty"`
+	Capped        bool             `json:"capped"`
+	Found         []Found          `json:"found,omitempty"`
+	Sample        []int            `json:"sample_choices,omitempty"`
+	SampleTrace   []string         `json:"sample_trace,omitempty"`
+	ReplayChecked int              `json:"replay_determinism_checked"`
+	MaxPreempt    int              `json:"max_preemptions_used"`
+	Members       int              `json:"members,omitempty"` // scenario families: members explored
+	Extra         map[string]int64 `json:"extra,omitempty"`   // harness-defined counters (e.g. vfs traces replayed on the real filesystem)
 }
 
 func (b Bounds) String() string {
